@@ -497,6 +497,7 @@ func runC07(c C07Case, _ bool) *fOutcome {
 		wk := workerapi.NewServer(ph)
 		wk.ResolveRoute = w.state.resolvePull
 		wk.Authorize = w.state.authorizeWorker
+		wk.PlanRequest = w.state.planWorker // as startServers wires it
 		ctx := metadata.NewIncomingContext(context.Background(), metadata.Pairs("authorization", "Bearer pulltoken"))
 		for round := 0; round <= c.Redeliver; round++ {
 			resp, err := wk.Dequeue(ctx, &workerapipb.DequeueRequest{Endpoint: "/pull/in", Batch: uint32(total)})
